@@ -345,7 +345,10 @@ def gen_history(rng, positions, length):
         if outstanding:
             # only stop and isready may be sent; or wait for the bestmove (finite searches)
             r = rng.random()
-            if r < 0.25:
+            if r < 0.06:
+                # 'debug' may be sent at any time, also while the engine is thinking
+                steps.append({"cmd": rng.choice(["debug on", "debug off"]), "kind": "debug", "gap": gap})
+            elif r < 0.25:
                 steps.append({"cmd": "isready", "kind": "isready", "gap": gap})
             elif r < 0.75 or infinite:
                 steps.append({"cmd": "stop", "kind": "stop", "gap": gap})
@@ -357,7 +360,12 @@ def gen_history(rng, positions, length):
                 outstanding = False
             continue
         r = rng.random()
-        if r < 0.16:
+        if r < 0.03:
+            steps.append({"cmd": rng.choice(["debug on", "debug off"]), "kind": "debug", "gap": gap})
+        elif r < 0.05:
+            # a GUI may ask for the identification again; the answer ends with uciok
+            steps.append({"cmd": "uci", "kind": "uci", "gap": gap})
+        elif r < 0.16:
             steps.append({"cmd": "isready", "kind": "isready", "gap": gap})
         elif r < 0.30:
             steps.append({"cmd": "ucinewgame", "kind": "ucinewgame", "gap": gap})
@@ -453,6 +461,7 @@ def run_history(binary, steps, delays, start_legal, ready_timeout=8.0, trace=Tru
     bm_seen = 0  # number of bestmove lines consumed so far
     quit_during_search = False
     ready_seen = 0
+    uciok_seen = [0]
 
     def count_lines(prefix):
         with e.cv:
@@ -570,6 +579,23 @@ def run_history(binary, steps, delays, start_legal, ready_timeout=8.0, trace=Tru
                         break
                 if pending:
                     classes.add("isready_during_search")
+            elif kind == "debug":
+                classes.add("debug_during_search" if len(count_lines("bestmove")) < len(pending) else "debug_when_idle")
+            elif kind == "uci":
+                n_ok = len(count_lines("uciok"))
+                t_end = now() + ready_timeout
+                while now() < t_end and len(count_lines("uciok")) <= n_ok - 0 and e.alive():
+                    if len(count_lines("uciok")) > uciok_seen[0]:
+                        break
+                    time.sleep(0.02)
+                if len(count_lines("uciok")) <= uciok_seen[0]:
+                    if unanswered("uci not answered by uciok", "c05.uci.deadlock", cpu_at_send):
+                        break
+                    res.update({"verdict": "inconclusive", "what": "uciok not seen but the engine is alive", "detail": {"history": e.history()}})
+                    break
+                uciok_seen[0] = len(count_lines("uciok"))
+                classes.add("uci_again_mid_session")
+                legal_now = start_legal  # this engine's 'uci' handler also sets the start position up again
             elif kind == "position":
                 legal_now = st["pos"]["legal"]
             elif kind == "ucinewgame":
